@@ -336,7 +336,7 @@ def _sqlite_args(c):
             c.series_samp, c.batch_num_samp, c.method_samp)
 
 
-def _run_sqlite(k):
+def _run_sqlite(k, interrupt=False):
     """Save A, then save B with an exception raised at statement k; return (outcome description, ok)."""
     tmp = tempfile.mkdtemp(prefix="verif-c06s-")
     try:
@@ -358,6 +358,8 @@ def _run_sqlite(k):
                     count["n"] += 1
                     count["log"].append(what)
                     if i == k:
+                        if interrupt:
+                            raise KeyboardInterrupt(f"injected interrupt at statement {i}: {what}")
                         raise _sqlite3.OperationalError(f"injected failure at statement {i}: {what}")
 
                 def execute(self, sql, *a):
@@ -383,6 +385,8 @@ def _run_sqlite(k):
                     count["n"] += 1
                     count["log"].append("commit")
                     if i == k:
+                        if interrupt:
+                            raise KeyboardInterrupt(f"injected interrupt at statement {i}: commit")
                         raise _sqlite3.OperationalError(f"injected failure at statement {i}: commit")
                     return self.conn.commit()
 
@@ -403,8 +407,8 @@ def _run_sqlite(k):
             with patched(sq, sqlite3=SqliteProxy()):
                 try:
                     sq.save_calibrator_state(tmp, *argsB)
-                except _sqlite3.OperationalError as e:
-                    failed = str(e)
+                except (_sqlite3.OperationalError, KeyboardInterrupt) as e:
+                    failed = f"{type(e).__name__}: {e}"
             nstat = count["n"]
             try:
                 back = sq.load_calibrator_state(tmp)
@@ -422,14 +426,16 @@ def case_sqlite():
         nstat, _, _, _ = _run_sqlite(10**6)
         k = ctx.int("fail_statement", 0, nstat)  # nstat = no failure
         kk = int(k)
-        n, failed, info, ok = _run_sqlite(kk if kk < nstat else 10**6)
+        # an ordinary error (sqlite3.OperationalError) or the process being interrupted (KeyboardInterrupt: a BaseException)
+        intr = bool(ctx.bool("interrupt")) if kk < nstat else False
+        n, failed, info, ok = _run_sqlite(kk if kk < nstat else 10**6, intr)
         ctx.prove(z3.BoolVal((failed is not None) == (kk < nstat)), "sqlite_previous_checkpoint_survives", "harness: failure injected where requested")
         ctx.prove(z3.Or(z3.BoolVal(ok), k.t != kk), "sqlite_previous_checkpoint_survives", f"failure at statement {kk}/{nstat} ({failed}): {info}")
-        ctx.sample({"fail_statement": kk, "outcome": info})
+        ctx.sample({"fail_statement": kk, "interrupt": intr, "outcome": info})
 
     def replay(cex):
         kk = int(cex.values.get("fail_statement") or 0)
-        n, failed, info, ok = _run_sqlite(kk)
+        n, failed, info, ok = _run_sqlite(kk, bool(cex.values.get("interrupt")))
         return (not ok), f"SQLite save failing at statement {kk} ({failed}): {info}"
 
     return Case("sqlite-fault-index", body, replay, time_budget=200)
